@@ -377,6 +377,20 @@ impl Gen {
         let first = g.recs.front().map(|x| x.0);
         let last = g.recs.back().map(|x| x.0);
         let n = g.recs.len();
+        // an EMPTY queue that has already moved forward: one time in four a stale truncate,
+        // well below where the queue stands (a late or duplicated request)
+        if n == 0 && next > 1 && self.rng.chance(1, 4) {
+            let pos = self.rng.below(next - 1);
+            return Op::Truncate { q, pos };
+        }
+        // a retained record with an EMPTY payload: one time in five truncate exactly there
+        if n > 0 && self.rng.chance(1, 5) {
+            let empties: Vec<u64> = self.st[&q].recs.iter().filter(|r| r.1 == 0).map(|r| r.0).collect();
+            if !empties.is_empty() {
+                let pos = *self.rng.pick(&empties);
+                return Op::Truncate { q, pos };
+            }
+        }
         let pos = match self.rng.below(100) {
             0..=59 if n > 0 => {
                 // inside the retained range: the position of a retained record or, one time
